@@ -952,6 +952,7 @@ fn rough_class_sql(q: &Query) -> u32 {
         lw += q.tabs[k + 1].cols.len();
     }
     if q.joins[..q.joins.len() - 1].iter().any(|(j, _)| outer(j)) || q.joins[q.joins.len() - 1].0.right_outer() { return 7; }
+    if q.joins.iter().any(|(j, _)| outer(j)) && q.whr.is_some() { return 4; }
     0
 }
 
